@@ -172,6 +172,37 @@ C03(pre, e, post, line) ==
              RLe(ROfBig(BSub(TokAmt(pre, b.vault_liq), TokAmt(post, q.vault_liq))), RAdd(RNeg(gainPos), tol)),
              [ev |-> e.ev, bank |-> bn])
 
+\* ---- C03 on venue-backed (pass-through) banks -------------------------------------------------
+\* The bank's only asset is its obligation at the venue (collateral units); positions are collateral units too
+\* (share value 1, no interest).  A deposit through the venue credits no more collateral than the venue minted to
+\* the obligation and takes exactly the stated tokens from the user; a withdrawal removes at least the collateral the
+\* obligation lost and hands the user no more than the venue released; positions never exceed the obligation.
+VenueOps == {"kamino_deposit", "kamino_withdraw"}
+C03Venue(pre, e, post, line) ==
+  (e.ev \in VenueOps /\ Ok(e) /\ Has(pre.banks, e.a.bank) /\ Has(post.banks, e.a.bank) /\ Has(post, "obligations")) =>
+    LET bn == e.a.bank an == e.a.acct b == pre.banks[bn] q == post.banks[bn]
+        on == q.integ[2]
+    IN (Has(pre.obligations, on) /\ Has(post.obligations, on) /\ Has(pre.accts, an) /\ Has(post.accts, an)) =>
+       LET dObl == BSub(post.obligations[on].amount, pre.obligations[on].amount)
+           dPos == R(BSub(PosBits(post.accts[an], bn, "a"), PosBits(pre.accts[an], bn, "a")))      \* in collateral units
+           dTot == R(BSub(q.tas, b.tas))
+           userTok == ROfBig(BSub(OutsideSum(post, b.mint), OutsideSum(pre, b.mint)))
+           vaultMove == BSub(TokAmt(post, q.vault_liq), TokAmt(pre, b.vault_liq))
+       IN /\ Chk("C03", "venue_position_change_matches_obligation_change", line,
+                 IF e.ev = "kamino_deposit" THEN RLe(dPos, ROfBig(dObl)) /\ ~BIsNeg(dObl)
+                 ELSE RLe(dPos, ROfBig(dObl)) /\ ~BIsPos(dObl),
+                 [ev |-> e.ev, bank |-> bn, d_obligation |-> dObl, d_position_bits |-> dPos[1]])
+          /\ Chk("C03", "venue_bank_total_follows_positions", line, dTot = dPos, [ev |-> e.ev, bank |-> bn])
+          /\ Chk("C03", "venue_positions_never_exceed_the_obligation", line,
+                 RLe(RMul(R(q.tas), R(q.asv)), ROfBig(post.obligations[on].amount)), [bank |-> bn, obligation |-> post.obligations[on].amount])
+          /\ Chk("C03", "pass_through_vault_keeps_nothing", line, BIsZero(vaultMove), [bank |-> bn, moved |-> vaultMove])
+          \* tokens only move between the user and the venue's supply vault (both are "outside" the program): none appear or vanish
+          /\ Chk("C03", "venue_tokens_only_move_between_user_and_venue", line, RIsZero(userTok), [bank |-> bn, ev |-> e.ev])
+          /\ (e.ev = "kamino_deposit" /\ Has(post, "reserves") /\ Has(post.reserves, q.integ[1]) /\ Has(pre.tok, post.reserves[q.integ[1]].vault)) =>
+               LET v == post.reserves[q.integ[1]].vault IN
+               Chk("C03", "venue_deposit_forwards_exactly_the_stated_tokens", line,
+                   BSub(TokAmt(post, v), TokAmt(pre, v)) = e.amt, [bank |-> bn, vault |-> v])
+
 \* ---- reference interest curve (exact rationals) ---------------------------------------------
 U32MAX == BSub(BPow2(32), BOne)
 RRate(r) == RMul(RMake(r, U32MAX), RInt(10))
